@@ -408,6 +408,15 @@ mm 0{}", "+0".repeat(n)));
     add("equ-self-reference-unused", ".equ a = a+1".into());
     add("equ-cycle-2", ".equ a = b\n.equ b = a\nldi r16, a".into());
     add("equ-cycle-3", ".equ a = b+1\n.equ b = c+1\n.equ c = a+1\n.dw c".into());
+    // symbols aren't cached: a symbol that is expensive to evaluate (a chain of doublings, every single
+    // use below the per-expression limit) used hundreds of times must not keep the build busy for minutes
+    for depth in [16usize, 18] {
+        let chain: String = ".equ xd0 = 1\n".to_string() + &(1..=depth).map(|i| format!(".equ xd{} = xd{}+xd{}\n", i, i - 1, i - 1)).collect::<String>();
+        add(&format!("expensive-symbol-depth-{}-used-on-600-lines", depth), chain.clone() + &format!(".dw xd{}&1\n", depth).repeat(600));
+        add(&format!("expensive-symbol-depth-{}-used-400-times-on-one-line", depth), chain.clone() + ".dw " + &vec![format!("xd{}&1", depth); 400].join(",") + "\n");
+        add(&format!("expensive-symbol-depth-{}-in-instructions-and-conditions", depth), chain.clone() + &format!("ldi r16, xd{}&1\n.if xd{}&1\n.db low(xd{})\n.endif\n", depth, depth, depth).repeat(250));
+        add(&format!("expensive-symbol-depth-{}-through-macro-calls", depth), chain.clone() + &format!(".macro xm\n.dw @0&1, xd{}&3\n.endm\n", depth) + &format!("xm xd{}\n", depth).repeat(300));
+    }
     add("equ-chain-long", (0..3000).map(|i| format!(".equ e{} = e{}+1\n", i, i + 1)).collect::<String>() + ".equ e3000 = 1\n.dw low(e0)");
     add("set-self-reference", ".set a = a\n.dw a".into());
     add("macro-self-call", ".macro m\nm\n.endm\nm".into());
